@@ -4,6 +4,13 @@
 // subset of a small timestamp domain split into 1-2 blocks, each with a tombstone set of a small family,
 // opened in a real FileStore; every seek time, both directions, scalar and array block reads, all five
 // block types. The oracle is the reference merge of tsmkit (written from the statement).
+//
+// Multi-range dimension: besides the small fixed tombstone family, one file of a set may carry EVERY set
+// of two (thorough: also three) distinct tombstone ranges over the timestamp grid - disjoint with a gap,
+// adjacent, overlapping, nested - over layouts of up to three blocks, so that blocks fully deleted by one
+// range, blocks only jointly deleted, blocks with live points in the gap between two ranges and untouched
+// blocks all occur; the tombstones are loaded from disk (FileStore.Open, TSMReader) or applied to the open
+// store with FileStore.DeleteRange.
 package c06
 
 import (
@@ -36,7 +43,7 @@ type Case struct {
 	Asc   bool       `json:"ascending"`
 	Array bool       `json:"array_form"`
 	Type  string     `json:"type"`
-	Via   string     `json:"via"` // how the files were put into a FileStore (viaOpen | viaPooled)
+	Via   string     `json:"via"` // how the files were put into a FileStore (viaOpen | viaPooled | viaLive)
 }
 
 const maxReads = 64 // a cursor over <= 6 blocks that has not ended after 64 reads never will
@@ -51,6 +58,102 @@ func tombVariants(maxT int64) []tsmkit.TombSet {
 		{{Min: maxT, Max: maxT + 4}},
 		{{Min: 1, Max: 1}, {Min: 2, Max: 3}}, // two ranges that only jointly cover a block {1,2},{1,3},{1,2,3}
 	}
+}
+
+// gridRanges lists every closed range [a,b] with 1 <= a <= b <= maxT (a, then b ascending).
+func gridRanges(maxT int64) []tsmkit.Range {
+	var rs []tsmkit.Range
+	for a := int64(1); a <= maxT; a++ {
+		for b := a; b <= maxT; b++ {
+			rs = append(rs, tsmkit.Range{Min: a, Max: b})
+		}
+	}
+	return rs
+}
+
+// rangeSets enumerates every set of k (2 or 3) distinct ranges of gridRanges(maxT). Unordered sets are
+// listed once in grid order; ordered=true (k=2 only) lists both recording orders.
+func rangeSets(maxT int64, k int, ordered bool) []tsmkit.TombSet {
+	rs := gridRanges(maxT)
+	var out []tsmkit.TombSet
+	for i := range rs {
+		for j := range rs {
+			if i == j || (!ordered && j < i) {
+				continue
+			}
+			if k == 2 {
+				out = append(out, tsmkit.TombSet{rs[i], rs[j]})
+				continue
+			}
+			for l := j + 1; l < len(rs); l++ {
+				out = append(out, tsmkit.TombSet{rs[i], rs[j], rs[l]})
+			}
+		}
+	}
+	return out
+}
+
+// overlapFree keeps the sets whose ranges are pairwise non-intersecting (disjoint with a gap, or adjacent).
+func overlapFree(sets []tsmkit.TombSet) []tsmkit.TombSet {
+	var out []tsmkit.TombSet
+	for _, ts := range sets {
+		ok := true
+		for i := range ts {
+			for j := i + 1; j < len(ts); j++ {
+				if ts[i].Min <= ts[j].Max && ts[j].Min <= ts[i].Max {
+					ok = false
+				}
+			}
+		}
+		if ok {
+			out = append(out, ts)
+		}
+	}
+	return out
+}
+
+// withNone prepends the empty tombstone set (index 0 of every per-file family).
+func withNone(sets ...[]tsmkit.TombSet) []tsmkit.TombSet {
+	out := []tsmkit.TombSet{nil}
+	for _, s := range sets {
+		out = append(out, s...)
+	}
+	return out
+}
+
+// gapLive returns the timestamps that are live in a block lying inside the overall span
+// [smallest Min, largest Max] of the >= 2 tombstone ranges of its own file (such a block is covered by
+// no single range; its live points sit in a gap between ranges).
+func gapLive(files []FileSpec) map[int64]bool {
+	var g map[int64]bool
+	for _, f := range files {
+		if len(f.Tombs) < 2 {
+			continue
+		}
+		lo, hi := f.Tombs[0].Min, f.Tombs[0].Max
+		for _, r := range f.Tombs[1:] {
+			if r.Min < lo {
+				lo = r.Min
+			}
+			if r.Max > hi {
+				hi = r.Max
+			}
+		}
+		for _, b := range f.Blocks {
+			if b[0] < lo || b[len(b)-1] > hi {
+				continue
+			}
+			for _, t := range b {
+				if !f.Tombs.Covers(t) {
+					if g == nil {
+						g = map[int64]bool{}
+					}
+					g[t] = true
+				}
+			}
+		}
+	}
+	return g
 }
 
 func allKeys() [][]byte {
@@ -390,11 +493,15 @@ func dirName(asc bool) string {
 }
 
 func sigOf(cs Case, clause string) string {
-	tomb := false
+	tomb := "false"
 	for _, f := range cs.Files {
-		tomb = tomb || len(f.Tombs) > 0
+		if len(f.Tombs) > 1 {
+			tomb = "multi-range"
+		} else if len(f.Tombs) == 1 && tomb == "false" {
+			tomb = "true"
+		}
 	}
-	return vlib.JoinSig(method(cs), dirName(cs.Asc), clause, fmt.Sprintf("files=%d,tombstones=%v", len(cs.Files), tomb))
+	return vlib.JoinSig(method(cs), dirName(cs.Asc), clause, fmt.Sprintf("files=%d,tombstones=%s", len(cs.Files), tomb))
 }
 
 func describe(cs Case) string {
@@ -464,12 +571,15 @@ func (k ocKey) String() string {
 
 type tally struct {
 	evals, nontrivial int64
+	gapRuns           int64 // runs whose expected yield holds a live point of a block inside the span of >= 2 ranges
 	oc                map[ocKey]int64
 }
 
 func (t *tally) flush(c *vlib.Ctx) {
 	c.Eval(t.evals)
 	c.NontrivialN(t.nontrivial)
+	c.Extra("runs_live_point_between_tombstone_ranges", t.gapRuns)
+	t.gapRuns = 0
 	for k, n := range t.oc {
 		c.OutcomeN(k.String(), n)
 	}
@@ -482,10 +592,15 @@ func runFileSet(c *vlib.Ctx, tl *tally, fs *tsm1.FileStore, files []FileSpec, ma
 	for _, f := range files {
 		anyTomb = anyTomb || len(f.Tombs) > 0
 	}
+	gap := gapLive(files)
 	for _, asc := range []bool{true, false} {
 		for seek := int64(0); seek <= maxT+1; seek++ {
 			m := reference(files, seek, asc)
-			nontrivial := m.overlapping && len(m.want) > 0
+			gapRun := false
+			for _, p := range m.want {
+				gapRun = gapRun || gap[p.T]
+			}
+			nontrivial := len(m.want) > 0 && (m.overlapping || gapRun)
 			for _, array := range []bool{false, true} {
 				for _, typ := range tsmkit.AllTypes {
 					var blocks [][]tsmkit.Point
@@ -495,6 +610,9 @@ func runFileSet(c *vlib.Ctx, tl *tally, fs *tsm1.FileStore, files []FileSpec, ma
 					tl.evals++
 					if nontrivial {
 						tl.nontrivial++
+					}
+					if gapRun {
+						tl.gapRuns++
 					}
 					cs := Case{Files: files, Seek: seek, Asc: asc, Array: array, Type: tsmkit.TypeName(typ), Via: via}
 					if panicked {
@@ -547,70 +665,109 @@ func openStore(dir string) (*tsm1.FileStore, error) {
 	return fs, nil
 }
 
-// pool holds the pre-built file variants. Variant v = li*len(tombs)+ti of position pos (1-based
-// generation) lives at <dir>/g<pos>/v<v>/<gen>-000000001.tsm (+ .tombstone), so that comparing
+// pool holds the pre-built inputs of one family. Masters: one TSM file per (position, layout) at
+// <dir>/g<pos>/l<li>/<gen>-000000001.tsm and one tombstone file per tombstone set at <dir>/tomb<ti>.tombstone
+// (its content depends only on keys and ranges). File sets opened per case hard-link the masters into a case
+// directory. In shared-reader mode every variant v = li*len(tombs)+ti of position pos is additionally linked
+// at <dir>/g<pos>/v<v>/<gen>-000000001.tsm (+ .tombstone) and opened ONCE with a real TSMReader; comparing
 // full paths orders files of different positions by generation exactly as in one shard directory.
 type pool struct {
 	dir     string
 	layouts []tsmkit.Layout
 	tombs   []tsmkit.TombSet
-	readers [][]tsm1.TSMFile // [pos-1][variant], only in pooled-reader mode
+	readers [][]tsm1.TSMFile // [pos-1][variant], only in shared-reader mode
 }
 
 func (p *pool) nvariants() int { return len(p.layouts) * len(p.tombs) }
+func (p *pool) master(pos, li int) string {
+	return filepath.Join(p.dir, fmt.Sprintf("g%d", pos), fmt.Sprintf("l%04d", li), tsmkit.FileName(pos, 1))
+}
+func (p *pool) tombMaster(ti int) string {
+	return tsmkit.TombstonePath(filepath.Join(p.dir, fmt.Sprintf("tomb%d.tsm", ti)))
+}
 func (p *pool) tsm(pos, v int) string {
-	return filepath.Join(p.dir, fmt.Sprintf("g%d", pos), fmt.Sprintf("v%04d", v), tsmkit.FileName(pos, 1))
+	return filepath.Join(p.dir, fmt.Sprintf("g%d", pos), fmt.Sprintf("v%05d", v), tsmkit.FileName(pos, 1))
 }
 
-func buildPool(dir string, nfiles int, layouts []tsmkit.Layout, tombs []tsmkit.TombSet, openReaders bool) (*pool, error) {
+func openReader(path string) (*tsm1.TSMReader, error) {
+	f, err := os.Open(path)
+	if err != nil {
+		return nil, err
+	}
+	return tsm1.NewTSMReader(f, tsm1.WithParseFileNameFunc(tsm1.DefaultParseFileName))
+}
+
+func buildPool(dir string, nfiles int, layouts []tsmkit.Layout, tombs []tsmkit.TombSet, sharedReaders bool) (*pool, error) {
 	p := &pool{dir: dir, layouts: layouts, tombs: tombs}
 	if err := os.MkdirAll(dir, 0o777); err != nil {
 		return nil, err
 	}
 	keys := allKeys()
+	for ti, ts := range tombs {
+		if len(ts) > 0 {
+			if err := tsmkit.WriteTombstone(filepath.Join(dir, fmt.Sprintf("tomb%d.tsm", ti)), keys, ts); err != nil {
+				return nil, err
+			}
+		}
+	}
 	for pos := 1; pos <= nfiles; pos++ {
 		var rs []tsm1.TSMFile
 		for li, l := range layouts {
+			if err := os.MkdirAll(filepath.Dir(p.master(pos, li)), 0o777); err != nil {
+				return nil, err
+			}
+			if err := tsmkit.WriteTSM(p.master(pos, li), pos, keyData(l)); err != nil {
+				return nil, err
+			}
+			if !sharedReaders {
+				continue
+			}
 			for ti, ts := range tombs {
 				path := p.tsm(pos, li*len(tombs)+ti)
 				if err := os.MkdirAll(filepath.Dir(path), 0o777); err != nil {
 					return nil, err
 				}
-				if ti == 0 {
-					if err := tsmkit.WriteTSM(path, pos, keyData(l)); err != nil {
-						return nil, err
-					}
-				} else if err := os.Link(p.tsm(pos, li*len(tombs)), path); err != nil {
+				if err := os.Link(p.master(pos, li), path); err != nil {
 					return nil, err
 				}
-				// the tombstone file's content depends only on (keys, ranges): write it once, link it after
 				if len(ts) > 0 {
-					master := filepath.Join(dir, fmt.Sprintf("tomb%d.tsm", ti))
-					if pos == 1 && li == 0 {
-						if err := tsmkit.WriteTombstone(master, keys, ts); err != nil {
-							return nil, err
-						}
-					}
-					if err := os.Link(tsmkit.TombstonePath(master), tsmkit.TombstonePath(path)); err != nil {
+					if err := os.Link(p.tombMaster(ti), tsmkit.TombstonePath(path)); err != nil {
 						return nil, err
 					}
 				}
-				if openReaders {
-					f, err := os.Open(path)
-					if err != nil {
-						return nil, err
-					}
-					r, err := tsm1.NewTSMReader(f, tsm1.WithParseFileNameFunc(tsm1.DefaultParseFileName))
-					if err != nil {
-						return nil, err
-					}
-					rs = append(rs, r)
+				r, err := openReader(path)
+				if err != nil {
+					return nil, err
 				}
+				rs = append(rs, r)
 			}
 		}
 		p.readers = append(p.readers, rs)
 	}
 	return p, nil
+}
+
+// linkCase hard-links the files of one file set (and, if withTombs, their tombstone files) into cdir under
+// generation-ordered names and returns the TSM paths, oldest first.
+func (p *pool) linkCase(cdir string, choice []int, withTombs bool) ([]string, error) {
+	if err := os.Mkdir(cdir, 0o777); err != nil {
+		return nil, err
+	}
+	nt := len(p.tombs)
+	var paths []string
+	for i, v := range choice {
+		dst := filepath.Join(cdir, tsmkit.FileName(i+1, 1))
+		if err := os.Link(p.master(i+1, v/nt), dst); err != nil {
+			return nil, err
+		}
+		if withTombs && len(p.tombs[v%nt]) > 0 {
+			if err := os.Link(p.tombMaster(v%nt), tsmkit.TombstonePath(dst)); err != nil {
+				return nil, err
+			}
+		}
+		paths = append(paths, dst)
+	}
+	return paths, nil
 }
 
 func (p *pool) close() {
@@ -623,17 +780,69 @@ func (p *pool) close() {
 }
 
 const (
-	viaOpen   = "FileStore.Open" // files hard-linked into one directory, opened with the real FileStore.Open
-	viaPooled = "pooled-readers" // real TSMReaders (tombstones loaded from disk) opened once and handed to a FileStore
+	viaOpen   = "FileStore.Open"             // files + tombstone files hard-linked into one directory, opened with the real FileStore.Open
+	viaPooled = "pooled-readers"             // real TSMReaders (tombstones loaded from disk) handed to a FileStore
+	viaLive   = "FileStore.Open+DeleteRange" // files opened without tombstone files; every range applied in recorded order with FileStore.DeleteRange
 )
 
-// explore enumerates every nfiles-tuple of (layout, tombstone set) file variants over {1..maxT}.
-// maxTombFiles restricts tuples to those where at most that many files have a tombstone set (-1: no limit).
-func explore(c *vlib.Ctx, scratch string, idx *int64, via string, nfiles int, maxT int64, maxTombFiles int, what string) bool {
-	layouts := tsmkit.Layouts(int(maxT), 2)
-	tombs := tombVariants(maxT)
+// liveDelete applies a tombstone set to an open FileStore the way a delete request does.
+func liveDelete(fs *tsm1.FileStore, ts tsmkit.TombSet) error {
+	for _, r := range ts {
+		if err := fs.DeleteRange(allKeys(), r.Min, r.Max); err != nil {
+			return err
+		}
+	}
+	return nil
+}
+
+// family is one enumerated family of file sets: every nfiles-tuple of (layout, tombstone set) variants
+// over {1..maxT} whose tuple of tombstone-set indices passes allow.
+type family struct {
+	what      string
+	via       string
+	nfiles    int
+	maxT      int64
+	maxBlocks int
+	tombs     []tsmkit.TombSet    // per-file tombstone family, tombs[0] = none
+	allow     func(ti []int) bool // nil: every combination
+	perCase   bool                // viaPooled only: open the TSMReaders per file set instead of once per variant
+}
+
+// atMostTomb allows tuples with at most n files carrying a tombstone set.
+func atMostTomb(n int) func([]int) bool {
+	return func(ti []int) bool {
+		k := 0
+		for _, t := range ti {
+			if t != 0 {
+				k++
+			}
+		}
+		return k <= n
+	}
+}
+
+// oneMulti allows tuples where exactly one file carries a set of index >= first (the multi-range sets) and
+// every other file one of index < first.
+func oneMulti(first int) func([]int) bool {
+	return func(ti []int) bool {
+		k := 0
+		for _, t := range ti {
+			if t >= first {
+				k++
+			}
+		}
+		return k == 1
+	}
+}
+
+// explore enumerates the family; false = stop the run (budget or harness error).
+func explore(c *vlib.Ctx, scratch string, idx *int64, fam family) bool {
+	what, via, nfiles, maxT := fam.what, fam.via, fam.nfiles, fam.maxT
+	layouts := tsmkit.Layouts(int(maxT), fam.maxBlocks)
+	tombs := fam.tombs
+	shared := via == viaPooled && !fam.perCase
 	t0 := time.Now()
-	p, err := buildPool(filepath.Join(scratch, "pool"), nfiles, layouts, tombs, via == viaPooled)
+	p, err := buildPool(filepath.Join(scratch, "pool"), nfiles, layouts, tombs, shared)
 	if err != nil {
 		c.HarnessError("building file pool: " + err.Error())
 		return false
@@ -647,17 +856,15 @@ func explore(c *vlib.Ctx, scratch string, idx *int64, via string, nfiles int, ma
 	nv := p.nvariants()
 	nt := len(tombs)
 	choice := make([]int, nfiles)
+	ti := make([]int, nfiles)
 	var done int64
 	for {
 		ok := true
-		if maxTombFiles >= 0 {
-			n := 0
-			for _, v := range choice {
-				if v%nt != 0 {
-					n++
-				}
+		if fam.allow != nil {
+			for i, v := range choice {
+				ti[i] = v % nt
 			}
-			ok = n <= maxTombFiles
+			ok = fam.allow(ti)
 		}
 		if ok {
 			*idx++
@@ -668,43 +875,63 @@ func explore(c *vlib.Ctx, scratch string, idx *int64, via string, nfiles int, ma
 				return false
 			}
 			files := make([]FileSpec, nfiles)
+			multi := false
 			for i, v := range choice {
 				files[i] = FileSpec{Blocks: layouts[v/nt], Tombs: tombs[v%nt]}
+				multi = multi || len(tombs[v%nt]) > 1
 			}
-			if via == viaPooled {
+			switch {
+			case shared:
 				rs := make([]tsm1.TSMFile, nfiles)
 				for i, v := range choice {
 					rs[i] = p.readers[i][v] // ascending by path: g1/.. < g2/.. < g3/..
 				}
 				runFileSet(c, tl, tsm1.VerifFileStoreOf(rs), files, maxT, via)
-			} else {
-				if err := os.Mkdir(cdir, 0o777); err != nil {
+			case via == viaPooled:
+				paths, err := p.linkCase(cdir, choice, true)
+				if err != nil {
 					c.HarnessError(err.Error())
 					return false
 				}
-				for i, v := range choice {
-					dst := filepath.Join(cdir, tsmkit.FileName(i+1, 1))
-					if err := os.Link(p.tsm(i+1, v), dst); err != nil {
-						c.HarnessError(err.Error())
+				rs := make([]tsm1.TSMFile, 0, nfiles)
+				for _, path := range paths {
+					r, err := openReader(path)
+					if err != nil {
+						c.HarnessError("NewTSMReader: " + err.Error())
 						return false
 					}
-					if len(tombs[v%nt]) > 0 {
-						if err := os.Link(tsmkit.TombstonePath(p.tsm(i+1, v)), tsmkit.TombstonePath(dst)); err != nil {
-							c.HarnessError(err.Error())
-							return false
-						}
-					}
+					rs = append(rs, r)
+				}
+				runFileSet(c, tl, tsm1.VerifFileStoreOf(rs), files, maxT, via)
+				for _, r := range rs {
+					r.Close()
+				}
+				os.RemoveAll(cdir)
+			default: // viaOpen, viaLive
+				if _, err := p.linkCase(cdir, choice, via == viaOpen); err != nil {
+					c.HarnessError(err.Error())
+					return false
 				}
 				fs, err := openStore(cdir)
 				if err != nil {
 					c.HarnessError("FileStore.Open: " + err.Error())
 					return false
 				}
+				if via == viaLive {
+					// one delete history for the whole store: only single-file families use this path
+					if err := liveDelete(fs, files[0].Tombs); err != nil {
+						c.HarnessError("FileStore.DeleteRange: " + err.Error())
+						return false
+					}
+				}
 				runFileSet(c, tl, fs, files, maxT, via)
 				fs.Close()
 				os.RemoveAll(cdir)
 			}
-			c.Extra("file_sets_"+strings.ReplaceAll(via, ".", "_"), 1)
+			c.Extra("file_sets_"+strings.NewReplacer(".", "_", "+", "_").Replace(via), 1)
+			if multi {
+				c.Extra("file_sets_with_multi_range_tombstones", 1)
+			}
 		}
 		// odometer, last file fastest
 		k := nfiles - 1
@@ -722,8 +949,8 @@ func explore(c *vlib.Ctx, scratch string, idx *int64, via string, nfiles int, ma
 	}
 }
 
-// replayCase rebuilds the files of one case from scratch, opens them with the real FileStore.Open (or,
-// for cases found through pooled readers, the same way as the exploration) and runs the one cursor.
+// replayCase rebuilds the files of one case from scratch, puts them into a FileStore the same way as the
+// exploration did (FileStore.Open / TSMReaders handed over / Open followed by DeleteRange) and runs the one cursor.
 func replayCase(cs Case) (bool, string) {
 	typ, ok := tsmkit.TypeByName(cs.Type)
 	if !ok {
@@ -739,15 +966,13 @@ func replayCase(cs Case) (bool, string) {
 		if err := tsmkit.WriteTSM(path, i+1, keyData(f.Blocks)); err != nil {
 			return false, "harness: " + clean(err.Error())
 		}
-		if err := tsmkit.WriteTombstone(path, allKeys(), f.Tombs); err != nil {
-			return false, "harness: " + clean(err.Error())
-		}
-		if cs.Via == viaPooled {
-			fh, err := os.Open(path)
-			if err != nil {
+		if cs.Via != viaLive {
+			if err := tsmkit.WriteTombstone(path, allKeys(), f.Tombs); err != nil {
 				return false, "harness: " + clean(err.Error())
 			}
-			r, err := tsm1.NewTSMReader(fh, tsm1.WithParseFileNameFunc(tsm1.DefaultParseFileName))
+		}
+		if cs.Via == viaPooled {
+			r, err := openReader(path)
 			if err != nil {
 				return false, "harness: " + clean(err.Error())
 			}
@@ -763,6 +988,14 @@ func replayCase(cs Case) (bool, string) {
 			return false, "harness: " + clean(err.Error())
 		}
 		defer fs.Close()
+		if cs.Via == viaLive {
+			if len(cs.Files) != 1 {
+				return false, "harness: the DeleteRange path takes single-file cases only"
+			}
+			if err := liveDelete(fs, cs.Files[0].Tombs); err != nil {
+				return false, "harness: " + clean(err.Error())
+			}
+		}
 	}
 	m := reference(cs.Files, cs.Seek, cs.Asc)
 	var blocks [][]tsmkit.Point
@@ -780,48 +1013,55 @@ func replayCase(cs Case) (bool, string) {
 func TestCheck(t *testing.T) {
 	vlib.Main(t, &vlib.Check{
 		ID: "C06", Level: "exploration",
-		Rule: "one series key per block type (5 keys with identical layout per file); file = any non-empty subset of timestamps {1..N} split into 1-2 contiguous blocks (N=5: 80 layouts, N=4: 32, N=3: 12, N=2: 4) x tombstone set in {none, whole key, [2,3], [1,1], [N,N+4], [1,1]+[2,3]}, written with the real TSMWriter/Tombstoner; " +
-			"QUICK: (a) every ordered pair of files for N=2, all 6x6 tombstone combinations, hard-linked into a directory and opened with the real FileStore.Open; (b) every ordered pair for N=4, all tombstone combinations, and (c) every ordered pair for N=5 with a tombstone set on at most one file - (b),(c) use real TSMReaders (tombstones loaded from disk) opened once per variant and handed to a FileStore in path order. " +
-			"THOROUGH: (a) as quick but N=4; (b) every ordered pair for N=5, all tombstone combinations; (c) every ordered triple for N=3 with all 6^3 tombstone combinations; (d) every ordered triple for N=5 without tombstones; (e) every ordered triple for N=4 with all 6^3 tombstone combinations (the largest family, last: the budget may cap it); (b)-(e) with pooled readers. " +
-			"Per file set: every seek time 0..N+1 x ascending/descending x Read<T>Block/Read<T>ArrayBlock x 5 block types, driven read, Next(), read ... until an empty block; one evaluation = one cursor run; oracle = newest-file-wins merge of per-file live points restricted to the seek side, compared in consumer yield order; " +
-			"non-trivial = runs whose expected yield is non-empty and where blocks of two different files overlap in time (distinct by construction)",
+		Rule: "one series key per block type (5 keys with identical layout per file); file = any non-empty subset of timestamps {1..N} split into 1-B contiguous blocks (B=2: N=5 80 layouts, N=4 32, N=3 12, N=2 4; B=3: N=6 303, N=5 111, N=4 39) x a tombstone set, written with the real TSMWriter/Tombstoner. " +
+			"BASE tombstone family: {none, whole key, [2,3], [1,1], [N,N+4], [1,1]+[2,3]}. MULTI-RANGE families over the grid ranges [a,b], 1<=a<=b<=N: P2(N) = every set of 2 distinct ranges (disjoint with a gap, adjacent, overlapping, nested; N=3: 15, N=4: 45, N=5: 105, N=6: 210), O2(N) = the same in both recording orders, D2(N) = the sets of P2(N) whose ranges do not intersect (gap or adjacent; N=4: 15), P3(N) = every set of 3 distinct ranges (N=4: 120, N=5: 455). " +
+			"QUICK: (a) every ordered pair of files for N=2,B=2, all 6x6 BASE combinations, hard-linked into a directory and opened with the real FileStore.Open; (m1) every single file N=4,B=3 x {none}+O2(4), tombstone file loaded by FileStore.Open; (m2) the same family, file opened without tombstones and every range applied in recorded order with FileStore.DeleteRange; (m3) every single file N=5,B=3 x {none}+P2(5); (m4) every ordered pair of files N=4,B=2 where exactly one file (either position) carries a set of D2(4) and the other none; (b) every ordered pair for N=4,B=2, all BASE combinations; (c) every ordered pair for N=5,B=2 with a BASE set on at most one file. " +
+			"THOROUGH: (a) as quick but N=4; (m1),(m2) with {none}+O2(4)+P3(4); (m3) with {none}+O2(5)+P3(5); (m5) every single file N=6,B=3 x {none}+P2(6); (b) every ordered pair for N=5, all BASE combinations; (m4) exactly one file carries any set of P2(4), the other none or [2,3]; (c) every ordered triple for N=3 with all 6^3 BASE combinations; (d) every ordered triple for N=5 without tombstones; (m6) every ordered triple N=3,B=2 where exactly one file (any position) carries a set of P2(3) and the others none; (e) every ordered triple for N=4 with all 6^3 BASE combinations (the largest family, last: the budget may cap it). " +
+			"(m3)-(m6),(b)-(e) use real TSMReaders (tombstones loaded from disk) handed to a FileStore in path order. " +
+			"Per file set: every seek time 0..N+1 x ascending/descending x Read<T>Block/Read<T>ArrayBlock x 5 block types, driven read, Next(), read ... until an empty block; one evaluation = one cursor run; oracle = newest-file-wins merge of per-file live points (a point is live when NO range of its file's set covers it) restricted to the seek side, compared in consumer yield order; " +
+			"non-trivial = runs whose expected yield is non-empty and where either blocks of two different files overlap in time or the yield holds a point that is live in a block lying inside the overall span [smallest Min, largest Max] of the >=2 tombstone ranges of its file, i.e. in the gap between ranges (distinct by construction; the latter are also counted in extra.runs_live_point_between_tombstone_ranges)",
 		Assumptions: []string{
 			"a point is live in a file when no tombstone range of that file covers it; where the newest file holding a timestamp has it tombstoned but an older file holds it live the statement is silent and both answers are accepted",
 			"a descending cursor yields each returned block back-to-front (as tsm1's descending array cursors consume it)",
 			"the end of a cursor is the first empty block (as tsm1's cursors treat it)",
 			"boolean values can only encode the parity of the writing file's number",
-			"pooled-reader file sets bypass FileStore.Open (an add-only export sets FileStore.files); FileStore.Open itself is covered by family (a)",
+			"pooled-reader file sets bypass FileStore.Open (an add-only export sets FileStore.files; readers are opened once per variant, or once per file set in the single-file families); FileStore.Open itself is covered by families (a),(m1),(m2)",
+			"FileStore.DeleteRange applies a range to every file of the store, so the delete-on-open-store path (m2) is enumerated for single-file stores only; multi-file sets with per-file tombstone sets load them from tombstone files",
+			"multi-range sets sit on one file of a set; the other files carry none (thorough pairs: none or [2,3])",
 		},
-		QuickBudgetS: 45, ThoroughBudgetS: 800,
+		QuickBudgetS: 60, ThoroughBudgetS: 800,
 		Run: func(c *vlib.Ctx) {
 			// 16 worker processes share 16 cores; mmap/munmap get much slower with many threads per process
 			runtime.GOMAXPROCS(2)
 			scratch := vlib.Scratch("c06-")
 			defer os.RemoveAll(scratch)
 			var idx int64
+			base := func(n int64) []tsmkit.TombSet { return tombVariants(n) }
+			run := func(f family) bool { return explore(c, scratch, &idx, f) }
 			if c.Quick() {
-				if !explore(c, scratch, &idx, viaOpen, 2, 2, -1, "(a) pairs N=2 via FileStore.Open") {
-					return
-				}
-				if !explore(c, scratch, &idx, viaPooled, 2, 4, -1, "(b) pairs N=4") {
-					return
-				}
-				explore(c, scratch, &idx, viaPooled, 2, 5, 1, "(c) pairs N=5 (tombstones on <=1 file)")
+				o24 := withNone(rangeSets(4, 2, true))
+				_ = run(family{what: "(a) pairs N=2 via FileStore.Open", via: viaOpen, nfiles: 2, maxT: 2, maxBlocks: 2, tombs: base(2)}) &&
+					run(family{what: "(m1) single file N=4 B=3, ordered 2-range sets, via FileStore.Open", via: viaOpen, nfiles: 1, maxT: 4, maxBlocks: 3, tombs: o24}) &&
+					run(family{what: "(m2) single file N=4 B=3, ordered 2-range sets, via DeleteRange", via: viaLive, nfiles: 1, maxT: 4, maxBlocks: 3, tombs: o24}) &&
+					run(family{what: "(m3) single file N=5 B=3, 2-range sets", via: viaPooled, perCase: true, nfiles: 1, maxT: 5, maxBlocks: 3, tombs: withNone(rangeSets(5, 2, false))}) &&
+					run(family{what: "(m4) pairs N=4, non-intersecting 2-range set on exactly one file", via: viaPooled, nfiles: 2, maxT: 4, maxBlocks: 2, tombs: withNone(overlapFree(rangeSets(4, 2, false))), allow: oneMulti(1)}) &&
+					run(family{what: "(b) pairs N=4", via: viaPooled, nfiles: 2, maxT: 4, maxBlocks: 2, tombs: base(4)}) &&
+					run(family{what: "(c) pairs N=5 (tombstones on <=1 file)", via: viaPooled, nfiles: 2, maxT: 5, maxBlocks: 2, tombs: base(5), allow: atMostTomb(1)})
 				return
 			}
-			if !explore(c, scratch, &idx, viaOpen, 2, 4, -1, "(a) pairs N=4 via FileStore.Open") {
-				return
-			}
-			if !explore(c, scratch, &idx, viaPooled, 2, 5, -1, "(b) pairs N=5") {
-				return
-			}
-			if !explore(c, scratch, &idx, viaPooled, 3, 3, -1, "(c) triples N=3") {
-				return
-			}
-			if !explore(c, scratch, &idx, viaPooled, 3, 5, 0, "(d) triples N=5 without tombstones") {
-				return
-			}
-			explore(c, scratch, &idx, viaPooled, 3, 4, -1, "(e) triples N=4")
+			o24 := withNone(rangeSets(4, 2, true), rangeSets(4, 3, false))
+			_ = run(family{what: "(a) pairs N=4 via FileStore.Open", via: viaOpen, nfiles: 2, maxT: 4, maxBlocks: 2, tombs: base(4)}) &&
+				run(family{what: "(m1) single file N=4 B=3, ordered 2-range and 3-range sets, via FileStore.Open", via: viaOpen, nfiles: 1, maxT: 4, maxBlocks: 3, tombs: o24}) &&
+				run(family{what: "(m2) single file N=4 B=3, ordered 2-range and 3-range sets, via DeleteRange", via: viaLive, nfiles: 1, maxT: 4, maxBlocks: 3, tombs: o24}) &&
+				run(family{what: "(m3) single file N=5 B=3, ordered 2-range and 3-range sets", via: viaPooled, perCase: true, nfiles: 1, maxT: 5, maxBlocks: 3, tombs: withNone(rangeSets(5, 2, true), rangeSets(5, 3, false))}) &&
+				run(family{what: "(m5) single file N=6 B=3, 2-range sets", via: viaPooled, perCase: true, nfiles: 1, maxT: 6, maxBlocks: 3, tombs: withNone(rangeSets(6, 2, false))}) &&
+				run(family{what: "(b) pairs N=5", via: viaPooled, nfiles: 2, maxT: 5, maxBlocks: 2, tombs: base(5)}) &&
+				run(family{what: "(m4) pairs N=4, any 2-range set on exactly one file, other none or [2,3]", via: viaPooled, nfiles: 2, maxT: 4, maxBlocks: 2,
+					tombs: append([]tsmkit.TombSet{nil, {{Min: 2, Max: 3}}}, rangeSets(4, 2, false)...), allow: oneMulti(2)}) &&
+				run(family{what: "(c) triples N=3", via: viaPooled, nfiles: 3, maxT: 3, maxBlocks: 2, tombs: base(3)}) &&
+				run(family{what: "(d) triples N=5 without tombstones", via: viaPooled, nfiles: 3, maxT: 5, maxBlocks: 2, tombs: withNone()}) &&
+				run(family{what: "(m6) triples N=3, any 2-range set on exactly one file", via: viaPooled, nfiles: 3, maxT: 3, maxBlocks: 2, tombs: withNone(rangeSets(3, 2, false)), allow: oneMulti(1)}) &&
+				run(family{what: "(e) triples N=4", via: viaPooled, nfiles: 3, maxT: 4, maxBlocks: 2, tombs: base(4)})
 		},
 		Replay: func(c *vlib.Ctx, raw json.RawMessage) (bool, string) {
 			var cs Case
